@@ -142,6 +142,29 @@ pub fn clone_default<T, N: ArrayLength, const R: usize>() {
     if n > 0 { let i = any_upto(n - 1); assert!(c[i].0 as usize == i + 100 && a[i].0 as usize == i); }
 }
 
+/// zero-sized elements: the generator's *calls* are the only observable effect, for the stack and the boxed form
+static mut ZNEXT: u32 = 0;
+#[derive(Debug, Clone, Copy, PartialEq)]
+pub struct ZRec;
+impl Default for ZRec {
+    fn default() -> ZRec {
+        unsafe { log(ZNEXT); ZNEXT += 1; }
+        ZRec
+    }
+}
+pub fn zero_sized_generators<T, N: ArrayLength, const R: usize>() {
+    let n = N::USIZE;
+    let form = any_upto(3);
+    kani_cover!(form == 3);
+    match form {
+        0 => { let a: GenericArray<(), N> = GenericArray::generate(|i| log(i as u32)); assert!(a.len() == n); }
+        1 => { let b: Box<GenericArray<(), N>> = Box::<GenericArray<(), N>>::generate(|i| log(i as u32)); assert!(b.len() == n); }
+        2 => { let b: Box<GenericArray<ZRec, N>> = GenericArray::default_boxed(); assert!(b.len() == n); }
+        _ => { let a: GenericArray<ZRec, N> = Default::default(); assert!(a.len() == n); }
+    }
+    log_is_identity(n);
+}
+
 macro_rules! c08_lattice {
     ($body:ident; $($name:ident: $N:ty, $u:literal;)*) => {
         pub mod $body {
@@ -156,10 +179,12 @@ pub mod q {
     c08_lattice! { zip_forms; n0: U0, 3; n1: U1, 4; n3: U3, 6; n4: U4, 7; }
     c08_lattice! { zip_map_tracked; n0: U0, 3; n2: U2, 5; n4: U4, 7; }
     c08_lattice! { clone_default; n0: U0, 3; n1: U1, 4; n4: U4, 7; }
+    c08_lattice! { zero_sized_generators; n0: U0, 3; n1: U1, 4; n3: U3, 6; }
 }
 pub mod t {
     c08_lattice! { generate_map_fold; n5: U5, 8; n6: U6, 9; n7: U7, 10; n8: U8, 11; }
     c08_lattice! { zip_forms; n2: U2, 5; n5: U5, 8; n8: U8, 11; }
     c08_lattice! { zip_map_tracked; n1: U1, 4; n3: U3, 6; n5: U5, 8; n8: U8, 11; }
     c08_lattice! { clone_default; n2: U2, 5; n3: U3, 6; n8: U8, 11; }
+    c08_lattice! { zero_sized_generators; n2: U2, 5; n5: U5, 8; n8: U8, 11; }
 }
